@@ -9,6 +9,26 @@ from harness import calreplay
 replay = dscommon.replay
 
 
+def _other_timezone(ctx):
+    """calendar buckets are those of UTC whatever the local time zone of the machine: the same families with TZ = US Pacific / New Zealand"""
+    import os
+    import time
+    old = os.environ.get("TZ")
+    try:
+        for tz in ("PST8PDT", "NZST-12"):
+            os.environ["TZ"] = tz
+            time.tzset()
+            dscommon.run_family(ctx, "C11All", fmt="text", always_nontrivial=True)
+            dscommon.run_family(ctx, "C11Sel", fmt="text", always_nontrivial=True)
+            calreplay.run(ctx, "MC_Calendar_edge2100")
+    finally:
+        if old is None:
+            os.environ.pop("TZ", None)
+        else:
+            os.environ["TZ"] = old
+        time.tzset()
+
+
 def run(ctx):
     ctx.rule = ("case = (dataset with 3..9 boundary-straddling initialisation times, axis, slice) and (calendar day, hour); "
                 "non-trivial = dataset has >= 2 distinct buckets on some time axis / day is a bucket boundary")
@@ -22,11 +42,13 @@ def run(ctx):
         # the ends of the supported range: 1900 and 2100 are century years without a leap day
         calreplay.run(ctx, "MC_Calendar_edge1900")
         calreplay.run(ctx, "MC_Calendar_edge2100")
+        _other_timezone(ctx)
     else:
         dscommon.run_family(ctx, "C11", fmt="text", always_nontrivial=True)
         dscommon.run_family(ctx, "C11All", fmt="netcdf", always_nontrivial=True)
         dscommon.run_family(ctx, "C11Sel", fmt="text", always_nontrivial=True)
         dscommon.run_family(ctx, "C11Sel", fmt="netcdf", always_nontrivial=True)
         calreplay.run(ctx, "MC_Calendar_full")
+        _other_timezone(ctx)
         ctx.exhaustive = True
     par.clean_workdirs()
